@@ -372,8 +372,38 @@ def r4(chk, prog):
     return n
 
 
+def r5_lock_held(chk, prog):
+    """check -> roll -> write -> account is one atomic step per log file: files::Handler<P, L>::message() holds its
+    lock object (a NAMED std::lock_guard / unique_lock / scoped_lock on the handler's lock member - a temporary
+    unlocks at once) from before the call of writeMessage() to the end of the function"""
+    n = 0
+    for f in prog.functions:
+        if f.classq != 'celma::log::files::Handler' or f.short != 'message' or f.body is None:
+            continue
+        n += 1
+        cfg = f.cfg
+        wm = [c for c in f.calls() if callee_is(c, 'writeMessage')]
+        guards = []
+        for x in f.walk():
+            if x.get('k') != 'DeclStmt':
+                continue
+            # a guard declared in a nested block ends with that block: only declarations of the function's own block
+            if f.parent(x) is not f.body:
+                continue
+            for d in x.get('decls', []):
+                if any(t in (d.get('t') or '') for t in ('std::lock_guard<', 'std::unique_lock<', 'std::scoped_lock<')) \
+                        and isinstance(d.get('init'), dict) and mentions_field(d['init'], 'mLockType'):
+                    guards.append(x)
+        ok = bool(wm) and all(any(cfg.node_dominates(g, c) for g in guards) for c in wm)
+        chk.check(ok, 'R5', f.name, 'the handler lock is held while the policy checks, rolls, writes and counts',
+                  f.loc(), 'no named lock guard on mLockType is alive at the call of writeMessage() (a temporary '
+                  'guard is destroyed at the end of its statement)')
+    chk.require(n >= 2, 'files::Handler<P, L>::message() instantiations: %d' % n)
+
+
 def run(chk):
-    units = units_matching('library/log/files/', 'library/common/file_operations.cpp')
+    units = units_matching('library/log/files/', 'library/common/file_operations.cpp') + [
+        os.path.join(VERIF, 'drivers', 'log_files.cpp')]
     prog = load_program(units)
     chk.units = units
     chk.explanation = (
@@ -393,3 +423,5 @@ def run(chk):
     r2(chk, prog)
     r3(chk, prog)
     r4(chk, prog)
+    chk.rule('R5', 'the file handler holds its lock around check, roll-over, write and accounting', 2)
+    r5_lock_held(chk, prog)
